@@ -21,6 +21,8 @@ XFinger(r) ==
        \cup (IF e.gen = "ok" /\ r.gen # "ok" THEN {<<"C05", "selectable-field-rejected", r.prog.x, r.id>>} ELSE {})
        \cup (IF e.gen = "ok" /\ r.gen = "ok" /\ ~r.compiles THEN {<<"C01", "does-not-compile", "fieldx", r.id>>} ELSE {})
        \cup (IF e.gen = "ok" /\ r.gen = "ok" /\ r.compiles /\ r.prog.x = "method" /\ r.full # e.val THEN {<<"C05", "wrong-source-selected", r.prog.x, r.id>>} ELSE {})
+       \cup (IF r.prog.x = "misc" /\ r.gen = "ok" /\ r.compiles /\ r.panic THEN {<<"C02", "panic", "field-path-" \o r.prog.sub, r.id>>} ELSE {})
+       \cup (IF r.prog.x = "misc" /\ r.gen = "ok" /\ r.compiles /\ ~r.panic /\ r.vals # e.vals THEN {<<"C05", "wrong-source-selected", "misc-" \o r.prog.sub, r.id>>} ELSE {})
 AccFinger(r) ==
   LET e == AccExpect([side |-> r.side, setting |-> r.setting]) IN
   IF r.gen = "panic" THEN {<<"C13", "generator-panic", r.why, r.id>>}
